@@ -399,6 +399,13 @@ module Coq_Pos =
     | XO p -> XO (mul p y)
     | XH -> y
 
+  (** val size_nat : positive -> nat **)
+
+  let rec size_nat = function
+  | XI p0 -> S (size_nat p0)
+  | XO p0 -> S (size_nat p0)
+  | XH -> S O
+
   (** val compare_cont : comparison -> positive -> positive -> comparison **)
 
   let rec compare_cont r x y =
@@ -435,6 +442,12 @@ module Coq_Pos =
     | XH -> (match q with
              | XH -> true
              | _ -> false)
+
+  (** val of_succ_nat : nat -> positive **)
+
+  let rec of_succ_nat = function
+  | O -> XH
+  | S x -> succ (of_succ_nat x)
  end
 
 module N =
@@ -518,6 +531,19 @@ module N =
     | Lt -> true
     | _ -> false
 
+  (** val max : n -> n -> n **)
+
+  let max n0 n' =
+    match compare n0 n' with
+    | Gt -> n0
+    | _ -> n'
+
+  (** val size_nat : n -> nat **)
+
+  let size_nat = function
+  | N0 -> O
+  | Npos p -> Coq_Pos.size_nat p
+
   (** val pos_div_eucl : positive -> n -> n * n **)
 
   let rec pos_div_eucl a b =
@@ -555,6 +581,12 @@ module N =
 
   let modulo a b =
     snd (div_eucl a b)
+
+  (** val of_nat : nat -> n **)
+
+  let of_nat = function
+  | O -> N0
+  | S n' -> Npos (Coq_Pos.of_succ_nat n')
  end
 
 module Z =
@@ -572,6 +604,12 @@ module Z =
     | Zneg p -> (match y with
                  | Zneg q -> Coq_Pos.eqb p q
                  | _ -> false)
+
+  (** val to_N : z -> n **)
+
+  let to_N = function
+  | Zpos p -> Npos p
+  | _ -> N0
  end
 
 type 'line exp = { opt : bool; mul0 : bool; mt : ('line -> bool) }
@@ -7615,6 +7653,1339 @@ let read_scalar s = match s with
             | _ -> Some s)
          | _ -> Some s)
       | _ -> Some s))
+
+(** val dec_aux : nat -> n -> n list -> n list **)
+
+let rec dec_aux fuel n0 acc =
+  match fuel with
+  | O -> acc
+  | S f ->
+    let acc' =
+      (N.add (Npos (XO (XO (XO (XO (XI XH))))))
+        (N.modulo n0 (Npos (XO (XI (XO XH)))))) :: acc
+    in
+    if N.ltb n0 (Npos (XO (XI (XO XH))))
+    then acc'
+    else dec_aux f (N.div n0 (Npos (XO (XI (XO XH))))) acc'
+
+(** val dec : n -> n list **)
+
+let dec n0 =
+  dec_aux (S (N.size_nat n0)) n0 []
+
+(** val decz : z -> n list **)
+
+let decz z0 = match z0 with
+| Zneg p -> (Npos (XI (XO (XI (XI (XO XH)))))) :: (dec (Npos p))
+| _ -> dec (Z.to_N z0)
+
+type dline =
+| DMatched of n * bool * n list * n option
+| DUnmatched of n * bool * n list * n list
+| DUnexpected of (n * n list) list
+
+type result =
+| OSuccess
+| OMalformed of n * dline list
+| OExit of z * z
+| OInternal of n list
+| OTimeout
+| OSkipped
+
+type outcome = { o_location : n list option; o_title : n list;
+                 o_expr : n list; o_line : n; o_nexps : n; o_exit : z option;
+                 o_cram : bool; o_esc : mode; o_stdout : n list;
+                 o_stderr : n list; o_res : result }
+
+type rr =
+| RendOk of n list
+| RendErr
+| RendPanic
+
+(** val sP : n **)
+
+let sP =
+  Npos (XO (XO (XO (XO (XO XH)))))
+
+(** val join : n list -> n list list -> n list **)
+
+let rec join sep = function
+| [] -> []
+| x :: r -> (match r with
+             | [] -> x
+             | _ :: _ -> app x (app sep (join sep r)))
+
+(** val split_on_lf : n list -> n list -> n list list **)
+
+let rec split_on_lf cur = function
+| [] -> (rev cur) :: []
+| c :: r ->
+  if N.eqb c (Npos (XO (XI (XO XH))))
+  then (rev cur) :: (split_on_lf [] r)
+  else split_on_lf (c :: cur) r
+
+(** val count_lf : n list -> n **)
+
+let count_lf t =
+  N.of_nat (length (filter (fun c -> N.eqb c (Npos (XO (XI (XO XH))))) t))
+
+(** val shell_expression_lines : outcome -> n **)
+
+let shell_expression_lines o =
+  N.add (count_lf o.o_expr) (Npos XH)
+
+(** val ends_lf : n list -> bool **)
+
+let rec ends_lf = function
+| [] -> false
+| c :: r ->
+  (match r with
+   | [] -> N.eqb c (Npos (XO (XI (XO XH))))
+   | _ :: _ -> ends_lf r)
+
+(** val assure_nl : n list -> n list **)
+
+let assure_nl t =
+  if ends_lf t then t else app t ((Npos (XO (XI (XO XH)))) :: [])
+
+(** val written_text : written -> n list **)
+
+let written_text = function
+| Plain t -> t
+| Escaped t -> app t s_ESCAPED
+
+(** val p_OUT : n list **)
+
+let p_OUT =
+  (Npos (XI (XI (XO (XO (XO XH)))))) :: ((Npos (XO (XI (XI (XI (XI
+    XH)))))) :: ((Npos (XO (XO (XO (XO (XO XH)))))) :: []))
+
+(** val to_output_string : mode -> n list -> n list **)
+
+let to_output_string m bytes =
+  flat_map (fun l ->
+    app p_OUT (app (expectation_line m l) ((Npos (XO (XI (XO XH)))) :: [])))
+    (split_lines bytes)
+
+(** val h_STDOUT : n list **)
+
+let h_STDOUT =
+  (Npos (XI (XI (XO (XO (XO XH)))))) :: ((Npos (XI (XI (XO (XO (XO
+    XH)))))) :: ((Npos (XO (XO (XO (XO (XO XH)))))) :: ((Npos (XI (XI (XO (XO
+    (XI (XO XH))))))) :: ((Npos (XO (XO (XI (XO (XI (XO XH))))))) :: ((Npos
+    (XO (XO (XI (XO (XO (XO XH))))))) :: ((Npos (XI (XI (XI (XI (XO (XO
+    XH))))))) :: ((Npos (XI (XO (XI (XO (XI (XO XH))))))) :: ((Npos (XO (XO
+    (XI (XO (XI (XO XH))))))) :: ((Npos (XO (XI (XO XH)))) :: [])))))))))
+
+(** val h_STDERR : n list **)
+
+let h_STDERR =
+  (Npos (XI (XI (XO (XO (XO XH)))))) :: ((Npos (XI (XI (XO (XO (XO
+    XH)))))) :: ((Npos (XO (XO (XO (XO (XO XH)))))) :: ((Npos (XI (XI (XO (XO
+    (XI (XO XH))))))) :: ((Npos (XO (XO (XI (XO (XI (XO XH))))))) :: ((Npos
+    (XO (XO (XI (XO (XO (XO XH))))))) :: ((Npos (XI (XO (XI (XO (XO (XO
+    XH))))))) :: ((Npos (XO (XI (XO (XO (XI (XO XH))))))) :: ((Npos (XO (XI
+    (XO (XO (XI (XO XH))))))) :: ((Npos (XO (XI (XO XH)))) :: [])))))))))
+
+(** val to_error_string : outcome -> n list **)
+
+let to_error_string o =
+  app h_STDOUT
+    (app (to_output_string o.o_esc o.o_stdout)
+      (app h_STDERR (to_output_string o.o_esc o.o_stderr)))
+
+(** val rtrim_ws : n list -> n list **)
+
+let rec rtrim_ws = function
+| [] -> []
+| c :: r ->
+  (match rtrim_ws r with
+   | [] -> if is_ws c then [] else c :: []
+   | n0 :: l -> c :: (n0 :: l))
+
+(** val blen : n list -> nat **)
+
+let blen t =
+  length (utf8_encode t)
+
+(** val split_at_byte : n list -> nat -> (n list * n list) option **)
+
+let rec split_at_byte t k = match k with
+| O -> Some ([], t)
+| S _ ->
+  (match t with
+   | [] -> None
+   | c :: r ->
+     let n0 = length (enc c) in
+     if Nat.leb n0 k
+     then (match split_at_byte r (sub k n0) with
+           | Some p -> let (a, b) = p in Some ((c :: a), b)
+           | None -> None)
+     else None)
+
+(** val vis : n -> n **)
+
+let vis c =
+  if N.eqb c (Npos (XI (XO (XO XH))))
+  then Npos (XO (XI (XI (XO (XO (XI (XO (XI (XI (XO (XO (XO (XO
+         XH)))))))))))))
+  else if N.eqb c (Npos (XO (XO (XO (XO (XO XH))))))
+       then Npos (XI (XO (XI (XO (XI (XI (XO (XI (XI (XI (XO (XO (XO
+              XH)))))))))))))
+       else Npos (XO (XO (XO (XO (XI (XI (XI (XO (XI (XI (XO (XO (XO
+              XH)))))))))))))
+
+(** val space_start_index : n list -> nat **)
+
+let space_start_index t =
+  blen (rtrim_ws t)
+
+(** val highlight : n list -> n list option **)
+
+let highlight t =
+  let idx = space_start_index t in
+  if Nat.ltb idx (blen t)
+  then (match split_at_byte t idx with
+        | Some p0 -> let (p, s) = p0 in Some (app p (map vis s))
+        | None -> None)
+  else Some t
+
+(** val out_num : nat -> n option -> n list option **)
+
+let out_num w = function
+| Some n0 ->
+  let s = if N.eqb n0 N0 then [] else dec n0 in
+  let p = if N.eqb n0 N0 then Npos (XI (XI (XO (XI (XO XH))))) else sP in
+  if Nat.leb (length s) w
+  then Some (app (repeat p (sub w (length s))) s)
+  else None
+| None -> Some (repeat sP w)
+
+(** val exp_num : nat -> n option -> bool -> n list option **)
+
+let exp_num w num mul1 =
+  match out_num w num with
+  | Some s ->
+    Some
+      (app s ((if mul1 then Npos (XI (XI (XO (XI (XO XH))))) else sP) :: []))
+  | None -> None
+
+(** val bAR : n list **)
+
+let bAR =
+  (Npos (XO (XO (XO (XO (XO XH)))))) :: ((Npos (XO (XO (XO (XO (XO
+    XH)))))) :: ((Npos (XO (XO (XI (XI (XI (XI XH))))))) :: ((Npos (XO (XO
+    (XO (XO (XO XH)))))) :: [])))
+
+(** val row :
+    nat -> n option -> n option -> bool -> n -> n list -> n list option **)
+
+let row w ln en mul1 sym content =
+  match exp_num w en mul1 with
+  | Some a ->
+    (match out_num w ln with
+     | Some b ->
+       Some
+         (assure_nl
+           (app a
+             (app (sP :: [])
+               (app b (app bAR (app (sym :: (sP :: [])) content))))))
+     | None -> None)
+  | None -> None
+
+type pparams = { max_sur : nat; absolute : bool; summarize : bool }
+
+(** val is_err_line : dline -> bool **)
+
+let is_err_line = function
+| DMatched (_, _, _, _) -> false
+| _ -> true
+
+(** val find_pos : ('a1 -> bool) -> 'a1 list -> nat option **)
+
+let rec find_pos p = function
+| [] -> None
+| x :: r -> if p x then Some O else option_map (fun x0 -> S x0) (find_pos p r)
+
+(** val next_err : dline list -> nat -> nat option **)
+
+let next_err ds from =
+  option_map (fun v -> add v from) (find_pos is_err_line (skipn from ds))
+
+(** val nOEOL_B : n list **)
+
+let nOEOL_B =
+  s_NOEOL
+
+(** val dOTS : n list **)
+
+let dOTS =
+  (Npos (XO (XI (XI (XI (XO XH)))))) :: ((Npos (XO (XI (XI (XI (XO
+    XH)))))) :: ((Npos (XO (XI (XI (XI (XO XH)))))) :: ((Npos (XO (XI (XO
+    XH)))) :: [])))
+
+(** val unexpected_rows :
+    nat -> mode -> n -> (n * n list) list -> n list option **)
+
+let rec unexpected_rows w m base = function
+| [] -> Some []
+| p :: r ->
+  let (li, bytes) = p in
+  let line = if ends_with_lf bytes then bytes else app bytes nOEOL_B in
+  (match highlight (written_text (escaped_expectation m line)) with
+   | Some content ->
+     (match row w (Some (N.add (N.add base li) (Npos XH))) None false (Npos
+              (XI (XI (XO (XI (XO XH)))))) content with
+      | Some a ->
+        (match unexpected_rows w m base r with
+         | Some b -> Some (app a b)
+         | None -> None)
+      | None -> None)
+   | None -> None)
+
+(** val pretty_lines :
+    pparams -> nat -> mode -> n -> dline list -> nat -> nat option -> dline
+    list -> n list option **)
+
+let rec pretty_lines pp w m base all di last = function
+| [] -> Some []
+| d :: r ->
+  (match d with
+   | DMatched (idx, mul1, expr, first) ->
+     let skip =
+       if Nat.ltb O pp.max_sur
+       then let a =
+              match last with
+              | Some le -> Nat.leb di (add le pp.max_sur)
+              | None -> false
+            in
+            let b =
+              match next_err all (S di) with
+              | Some ne -> Nat.leb ne (add di pp.max_sur)
+              | None -> false
+            in
+            negb ((||) a b)
+       else false
+     in
+     let first_skip =
+       if Nat.ltb O pp.max_sur
+       then (match last with
+             | Some le ->
+               (&&) (negb (Nat.leb di (add le pp.max_sur)))
+                 (Nat.eqb (add (add le pp.max_sur) (S O)) di)
+             | None -> false)
+       else false
+     in
+     let here =
+       if negb skip
+       then if mul1
+            then let ln = Some N0 in
+                 row w ln (Some (N.add (N.add base idx) (Npos XH))) mul1 sP
+                   expr
+            else (match first with
+                  | Some f ->
+                    let ln = Some (N.add (N.add base f) (Npos XH)) in
+                    row w ln (Some (N.add (N.add base idx) (Npos XH))) mul1
+                      sP expr
+                  | None -> None)
+       else if first_skip then Some dOTS else Some []
+     in
+     (match here with
+      | Some a ->
+        (match pretty_lines pp w m base all (S di) last r with
+         | Some b -> Some (app a b)
+         | None -> None)
+      | None -> None)
+   | DUnmatched (idx, mul1, expr, _) ->
+     (match highlight expr with
+      | Some content ->
+        (match row w None (Some (N.add (N.add base idx) (Npos XH))) mul1
+                 (Npos (XI (XO (XI (XI (XO XH)))))) content with
+         | Some a ->
+           (match pretty_lines pp w m base all (S di) (Some di) r with
+            | Some b -> Some (app a b)
+            | None -> None)
+         | None -> None)
+      | None -> None)
+   | DUnexpected ls ->
+     (match unexpected_rows w m base ls with
+      | Some a ->
+        (match pretty_lines pp w m base all (S di)
+                 (match ls with
+                  | [] -> last
+                  | _ :: _ -> Some di) r with
+         | Some b -> Some (app a b)
+         | None -> None)
+      | None -> None))
+
+(** val line_base : pparams -> outcome -> n **)
+
+let line_base pp o =
+  if pp.absolute
+  then N.sub (N.add o.o_line (shell_expression_lines o)) (Npos XH)
+  else N0
+
+(** val width : pparams -> outcome -> n -> nat **)
+
+let width pp o count_lines =
+  length (dec (N.add (line_base pp o) (N.max count_lines o.o_nexps)))
+
+(** val pretty_malformed :
+    pparams -> outcome -> n -> dline list -> n list option **)
+
+let pretty_malformed pp o count_lines d =
+  pretty_lines pp (width pp o count_lines) o.o_esc (line_base pp o) d O None d
+
+(** val sLASHES : n list **)
+
+let sLASHES =
+  (Npos (XI (XI (XI (XI (XO XH)))))) :: ((Npos (XI (XI (XI (XI (XO
+    XH)))))) :: [])
+
+(** val header_to_title : n -> n list -> n list **)
+
+let header_to_title first t =
+  let rec go0 i = function
+  | [] -> []
+  | l :: r ->
+    app sLASHES
+      (app (sP :: ((if Nat.eqb i O then first else sP) :: (sP :: [])))
+        (app l (app ((Npos (XO (XI (XO XH)))) :: []) (go0 (S i) r))))
+  in go0 O (split_on_lf [] t)
+
+(** val divider : n -> n list **)
+
+let divider c =
+  app sLASHES
+    (app (sP :: [])
+      (app
+        (repeat c (S (S (S (S (S (S (S (S (S (S (S (S (S (S (S (S (S (S (S (S
+          (S (S (S (S (S (S (S (S (S (S (S (S (S (S (S (S (S (S (S (S (S (S
+          (S (S (S (S (S (S (S (S (S (S (S (S (S (S (S (S (S (S (S (S (S (S
+          (S (S (S (S (S (S (S (S (S (S (S (S (S
+          O))))))))))))))))))))))))))))))))))))))))))))))))))))))))))))))))))))))))))))))
+        ((Npos (XO (XI (XO XH)))) :: [])))
+
+(** val s_LINE : n list **)
+
+let s_LINE =
+  (Npos (XO (XO (XI (XI (XO (XO XH))))))) :: ((Npos (XI (XO (XO (XI (XO (XI
+    XH))))))) :: ((Npos (XO (XI (XI (XI (XO (XI XH))))))) :: ((Npos (XI (XO
+    (XI (XO (XO (XI XH))))))) :: ((Npos (XO (XO (XO (XO (XO XH)))))) :: []))))
+
+(** val render_header : outcome -> n list **)
+
+let render_header o =
+  let at_ =
+    match o.o_location with
+    | Some l ->
+      header_to_title (Npos (XO (XO (XO (XO (XO (XO XH)))))))
+        (app l
+          (app ((Npos (XO (XI (XO (XI (XI XH)))))) :: []) (dec o.o_line)))
+    | None ->
+      header_to_title (Npos (XO (XO (XO (XO (XO (XO XH)))))))
+        (app s_LINE (dec o.o_line))
+  in
+  let ti =
+    match o.o_title with
+    | [] -> []
+    | n0 :: l ->
+      (header_to_title (Npos (XI (XI (XO (XO (XO XH)))))) (n0 :: l)) :: []
+  in
+  let headers =
+    app (at_ :: [])
+      (app ti
+        ((header_to_title (Npos (XO (XO (XI (XO (XO XH)))))) o.o_expr) :: []))
+  in
+  app (divider (Npos (XI (XO (XI (XI (XI XH)))))))
+    (app (join (divider (Npos (XI (XO (XI (XI (XO XH))))))) headers)
+      (app (divider (Npos (XI (XO (XI (XI (XI XH))))))) ((Npos (XO (XI (XO
+        XH)))) :: [])))
+
+(** val t_UNEXPECTED_EXIT : n list **)
+
+let t_UNEXPECTED_EXIT =
+  (Npos (XI (XO (XI (XO (XI (XI XH))))))) :: ((Npos (XO (XI (XI (XI (XO (XI
+    XH))))))) :: ((Npos (XI (XO (XI (XO (XO (XI XH))))))) :: ((Npos (XO (XO
+    (XO (XI (XI (XI XH))))))) :: ((Npos (XO (XO (XO (XO (XI (XI
+    XH))))))) :: ((Npos (XI (XO (XI (XO (XO (XI XH))))))) :: ((Npos (XI (XI
+    (XO (XO (XO (XI XH))))))) :: ((Npos (XO (XO (XI (XO (XI (XI
+    XH))))))) :: ((Npos (XI (XO (XI (XO (XO (XI XH))))))) :: ((Npos (XO (XO
+    (XI (XO (XO (XI XH))))))) :: ((Npos (XO (XO (XO (XO (XO
+    XH)))))) :: ((Npos (XI (XO (XI (XO (XO (XI XH))))))) :: ((Npos (XO (XO
+    (XO (XI (XI (XI XH))))))) :: ((Npos (XI (XO (XO (XI (XO (XI
+    XH))))))) :: ((Npos (XO (XO (XI (XO (XI (XI XH))))))) :: ((Npos (XO (XO
+    (XO (XO (XO XH)))))) :: ((Npos (XI (XI (XO (XO (XO (XI
+    XH))))))) :: ((Npos (XI (XI (XI (XI (XO (XI XH))))))) :: ((Npos (XO (XO
+    (XI (XO (XO (XI XH))))))) :: ((Npos (XI (XO (XI (XO (XO (XI
+    XH))))))) :: ((Npos (XO (XI (XO XH)))) :: []))))))))))))))))))))
+
+(** val t_EXPECTED : n list **)
+
+let t_EXPECTED =
+  (Npos (XO (XO (XO (XO (XO XH)))))) :: ((Npos (XO (XO (XO (XO (XO
+    XH)))))) :: ((Npos (XI (XO (XI (XO (XO (XI XH))))))) :: ((Npos (XO (XO
+    (XO (XI (XI (XI XH))))))) :: ((Npos (XO (XO (XO (XO (XI (XI
+    XH))))))) :: ((Npos (XI (XO (XI (XO (XO (XI XH))))))) :: ((Npos (XI (XI
+    (XO (XO (XO (XI XH))))))) :: ((Npos (XO (XO (XI (XO (XI (XI
+    XH))))))) :: ((Npos (XI (XO (XI (XO (XO (XI XH))))))) :: ((Npos (XO (XO
+    (XI (XO (XO (XI XH))))))) :: ((Npos (XO (XI (XO (XI (XI
+    XH)))))) :: ((Npos (XO (XO (XO (XO (XO XH)))))) :: [])))))))))))
+
+(** val t_ACTUAL : n list **)
+
+let t_ACTUAL =
+  (Npos (XO (XO (XO (XO (XO XH)))))) :: ((Npos (XO (XO (XO (XO (XO
+    XH)))))) :: ((Npos (XI (XO (XO (XO (XO (XI XH))))))) :: ((Npos (XI (XI
+    (XO (XO (XO (XI XH))))))) :: ((Npos (XO (XO (XI (XO (XI (XI
+    XH))))))) :: ((Npos (XI (XO (XI (XO (XI (XI XH))))))) :: ((Npos (XI (XO
+    (XO (XO (XO (XI XH))))))) :: ((Npos (XO (XO (XI (XI (XO (XI
+    XH))))))) :: ((Npos (XO (XI (XO (XI (XI XH)))))) :: ((Npos (XO (XO (XO
+    (XO (XO XH)))))) :: ((Npos (XO (XO (XO (XO (XO XH)))))) :: ((Npos (XO (XO
+    (XO (XO (XO XH)))))) :: [])))))))))))
+
+(** val t_TIMEOUT : n list **)
+
+let t_TIMEOUT =
+  (Npos (XO (XO (XI (XO (XI (XI XH))))))) :: ((Npos (XI (XO (XO (XI (XO (XI
+    XH))))))) :: ((Npos (XI (XO (XI (XI (XO (XI XH))))))) :: ((Npos (XI (XO
+    (XI (XO (XO (XI XH))))))) :: ((Npos (XI (XI (XI (XI (XO (XI
+    XH))))))) :: ((Npos (XI (XO (XI (XO (XI (XI XH))))))) :: ((Npos (XO (XO
+    (XI (XO (XI (XI XH))))))) :: ((Npos (XO (XO (XO (XO (XO
+    XH)))))) :: ((Npos (XI (XO (XO (XI (XO (XI XH))))))) :: ((Npos (XO (XI
+    (XI (XI (XO (XI XH))))))) :: ((Npos (XO (XO (XO (XO (XO
+    XH)))))) :: ((Npos (XI (XO (XI (XO (XO (XI XH))))))) :: ((Npos (XO (XO
+    (XO (XI (XI (XI XH))))))) :: ((Npos (XI (XO (XI (XO (XO (XI
+    XH))))))) :: ((Npos (XI (XI (XO (XO (XO (XI XH))))))) :: ((Npos (XI (XO
+    (XI (XO (XI (XI XH))))))) :: ((Npos (XO (XO (XI (XO (XI (XI
+    XH))))))) :: ((Npos (XI (XO (XO (XI (XO (XI XH))))))) :: ((Npos (XI (XI
+    (XI (XI (XO (XI XH))))))) :: ((Npos (XO (XI (XI (XI (XO (XI
+    XH))))))) :: ((Npos (XO (XI (XO XH)))) :: []))))))))))))))))))))
+
+(** val t_ERROR : n list **)
+
+let t_ERROR =
+  (Npos (XI (XO (XI (XO (XO (XI XH))))))) :: ((Npos (XO (XI (XO (XO (XI (XI
+    XH))))))) :: ((Npos (XO (XI (XO (XO (XI (XI XH))))))) :: ((Npos (XI (XI
+    (XI (XI (XO (XI XH))))))) :: ((Npos (XO (XI (XO (XO (XI (XI
+    XH))))))) :: ((Npos (XO (XI (XO (XI (XI XH)))))) :: ((Npos (XO (XO (XO
+    (XO (XO XH)))))) :: []))))))
+
+(** val pretty_error : pparams -> outcome -> n list option **)
+
+let pretty_error pp o =
+  match o.o_res with
+  | OMalformed (n0, d) -> pretty_malformed pp o n0 d
+  | OExit (a, e) ->
+    Some
+      (app t_UNEXPECTED_EXIT
+        (app t_EXPECTED
+          (app (decz e)
+            (app ((Npos (XO (XI (XO XH)))) :: [])
+              (app t_ACTUAL
+                (app (decz a)
+                  (app ((Npos (XO (XI (XO XH)))) :: [])
+                    (app ((Npos (XO (XI (XO XH)))) :: []) (to_error_string o)))))))))
+  | OInternal msg ->
+    Some (app t_ERROR (app msg ((Npos (XO (XI (XO XH)))) :: [])))
+  | OTimeout ->
+    Some
+      (app t_TIMEOUT
+        (app ((Npos (XO (XI (XO XH)))) :: []) (to_error_string o)))
+  | _ -> Some []
+
+(** val res_failure : result -> bool **)
+
+let res_failure = function
+| OSuccess -> false
+| OSkipped -> false
+| _ -> true
+
+(** val res_skipped : result -> bool **)
+
+let res_skipped = function
+| OSkipped -> true
+| _ -> false
+
+(** val res_success : result -> bool **)
+
+let res_success = function
+| OSuccess -> true
+| _ -> false
+
+(** val pretty_section : pparams -> outcome -> n list option **)
+
+let pretty_section pp o =
+  if res_failure o.o_res
+  then (match pretty_error pp o with
+        | Some b ->
+          Some
+            (app (render_header o)
+              (app b ((Npos (XO (XI (XO XH)))) :: ((Npos (XO (XI (XO
+                XH)))) :: []))))
+        | None -> None)
+  else Some []
+
+(** val pretty_sections : pparams -> outcome list -> n list option **)
+
+let rec pretty_sections pp = function
+| [] -> Some []
+| o :: r ->
+  (match pretty_section pp o with
+   | Some a ->
+     (match pretty_sections pp r with
+      | Some b -> Some (app a b)
+      | None -> None)
+   | None -> None)
+
+(** val text_eqb : n list -> n list -> bool **)
+
+let rec text_eqb a b =
+  match a with
+  | [] -> (match b with
+           | [] -> true
+           | _ :: _ -> false)
+  | x :: a' ->
+    (match b with
+     | [] -> false
+     | y :: b' -> (&&) (N.eqb x y) (text_eqb a' b'))
+
+(** val distinct_count : n list list -> n list list -> nat **)
+
+let rec distinct_count seen = function
+| [] -> length seen
+| x :: r ->
+  if existsb (text_eqb x) seen
+  then distinct_count seen r
+  else distinct_count (x :: seen) r
+
+(** val locations : outcome list -> n list list **)
+
+let locations os =
+  flat_map (fun o -> match o.o_location with
+                     | Some l -> l :: []
+                     | None -> []) os
+
+(** val count_if : (result -> bool) -> outcome list -> n **)
+
+let count_if p os =
+  N.of_nat (length (filter (fun o -> p o.o_res) os))
+
+(** val t_RESULT : n list **)
+
+let t_RESULT =
+  (Npos (XO (XI (XO (XO (XI (XO XH))))))) :: ((Npos (XI (XO (XI (XO (XO (XI
+    XH))))))) :: ((Npos (XI (XI (XO (XO (XI (XI XH))))))) :: ((Npos (XI (XO
+    (XI (XO (XI (XI XH))))))) :: ((Npos (XO (XO (XI (XI (XO (XI
+    XH))))))) :: ((Npos (XO (XO (XI (XO (XI (XI XH))))))) :: ((Npos (XO (XI
+    (XO (XI (XI XH)))))) :: ((Npos (XO (XO (XO (XO (XO XH)))))) :: [])))))))
+
+(** val t_DOCS : n list **)
+
+let t_DOCS =
+  (Npos (XO (XO (XO (XO (XO XH)))))) :: ((Npos (XO (XO (XI (XO (XO (XI
+    XH))))))) :: ((Npos (XI (XI (XI (XI (XO (XI XH))))))) :: ((Npos (XI (XI
+    (XO (XO (XO (XI XH))))))) :: ((Npos (XI (XO (XI (XO (XI (XI
+    XH))))))) :: ((Npos (XI (XO (XI (XI (XO (XI XH))))))) :: ((Npos (XI (XO
+    (XI (XO (XO (XI XH))))))) :: ((Npos (XO (XI (XI (XI (XO (XI
+    XH))))))) :: ((Npos (XO (XO (XI (XO (XI (XI XH))))))) :: ((Npos (XO (XO
+    (XO (XI (XO XH)))))) :: ((Npos (XI (XI (XO (XO (XI (XI
+    XH))))))) :: ((Npos (XI (XO (XO (XI (XO XH)))))) :: ((Npos (XO (XO (XO
+    (XO (XO XH)))))) :: ((Npos (XI (XI (XI (XO (XI (XI XH))))))) :: ((Npos
+    (XI (XO (XO (XI (XO (XI XH))))))) :: ((Npos (XO (XO (XI (XO (XI (XI
+    XH))))))) :: ((Npos (XO (XO (XO (XI (XO (XI XH))))))) :: ((Npos (XO (XO
+    (XO (XO (XO XH)))))) :: [])))))))))))))))))
+
+(** val t_TESTS : n list **)
+
+let t_TESTS =
+  (Npos (XO (XO (XO (XO (XO XH)))))) :: ((Npos (XO (XO (XI (XO (XI (XI
+    XH))))))) :: ((Npos (XI (XO (XI (XO (XO (XI XH))))))) :: ((Npos (XI (XI
+    (XO (XO (XI (XI XH))))))) :: ((Npos (XO (XO (XI (XO (XI (XI
+    XH))))))) :: ((Npos (XI (XI (XO (XO (XO (XI XH))))))) :: ((Npos (XI (XO
+    (XO (XO (XO (XI XH))))))) :: ((Npos (XI (XI (XO (XO (XI (XI
+    XH))))))) :: ((Npos (XI (XO (XI (XO (XO (XI XH))))))) :: ((Npos (XO (XO
+    (XO (XI (XO XH)))))) :: ((Npos (XI (XI (XO (XO (XI (XI
+    XH))))))) :: ((Npos (XI (XO (XO (XI (XO XH)))))) :: ((Npos (XO (XI (XO
+    (XI (XI XH)))))) :: ((Npos (XO (XO (XO (XO (XO XH)))))) :: [])))))))))))))
+
+(** val t_SUCC : n list **)
+
+let t_SUCC =
+  (Npos (XO (XO (XO (XO (XO XH)))))) :: ((Npos (XI (XI (XO (XO (XI (XI
+    XH))))))) :: ((Npos (XI (XO (XI (XO (XI (XI XH))))))) :: ((Npos (XI (XI
+    (XO (XO (XO (XI XH))))))) :: ((Npos (XI (XI (XO (XO (XO (XI
+    XH))))))) :: ((Npos (XI (XO (XI (XO (XO (XI XH))))))) :: ((Npos (XI (XO
+    (XI (XO (XO (XI XH))))))) :: ((Npos (XO (XO (XI (XO (XO (XI
+    XH))))))) :: ((Npos (XI (XO (XI (XO (XO (XI XH))))))) :: ((Npos (XO (XO
+    (XI (XO (XO (XI XH))))))) :: ((Npos (XO (XO (XI (XI (XO
+    XH)))))) :: ((Npos (XO (XO (XO (XO (XO XH)))))) :: [])))))))))))
+
+(** val t_FAILED : n list **)
+
+let t_FAILED =
+  (Npos (XO (XO (XO (XO (XO XH)))))) :: ((Npos (XO (XI (XI (XO (XO (XI
+    XH))))))) :: ((Npos (XI (XO (XO (XO (XO (XI XH))))))) :: ((Npos (XI (XO
+    (XO (XI (XO (XI XH))))))) :: ((Npos (XO (XO (XI (XI (XO (XI
+    XH))))))) :: ((Npos (XI (XO (XI (XO (XO (XI XH))))))) :: ((Npos (XO (XO
+    (XI (XO (XO (XI XH))))))) :: ((Npos (XO (XO (XO (XO (XO
+    XH)))))) :: ((Npos (XI (XO (XO (XO (XO (XI XH))))))) :: ((Npos (XO (XI
+    (XI (XI (XO (XI XH))))))) :: ((Npos (XO (XO (XI (XO (XO (XI
+    XH))))))) :: ((Npos (XO (XO (XO (XO (XO XH)))))) :: [])))))))))))
+
+(** val t_SKIPPED : n list **)
+
+let t_SKIPPED =
+  (Npos (XO (XO (XO (XO (XO XH)))))) :: ((Npos (XI (XI (XO (XO (XI (XI
+    XH))))))) :: ((Npos (XI (XI (XO (XI (XO (XI XH))))))) :: ((Npos (XI (XO
+    (XO (XI (XO (XI XH))))))) :: ((Npos (XO (XO (XO (XO (XI (XI
+    XH))))))) :: ((Npos (XO (XO (XO (XO (XI (XI XH))))))) :: ((Npos (XI (XO
+    (XI (XO (XO (XI XH))))))) :: ((Npos (XO (XO (XI (XO (XO (XI
+    XH))))))) :: ((Npos (XO (XI (XO XH)))) :: []))))))))
+
+(** val pretty_summary : outcome list -> n list **)
+
+let pretty_summary os =
+  let ok = count_if res_success os in
+  let er = count_if res_failure os in
+  let sk = count_if res_skipped os in
+  app t_RESULT
+    (app (dec (N.of_nat (distinct_count [] (locations os))))
+      (app t_DOCS
+        (app (dec (N.add (N.add ok er) sk))
+          (app t_TESTS
+            (app (dec ok)
+              (app t_SUCC
+                (app (dec er) (app t_FAILED (app (dec sk) t_SKIPPED)))))))))
+
+(** val render_pretty : pparams -> outcome list -> rr **)
+
+let render_pretty pp os =
+  match pretty_sections pp os with
+  | Some s -> RendOk (app s (if pp.summarize then pretty_summary os else []))
+  | None -> RendPanic
+
+(** val text_ltb : n list -> n list -> bool **)
+
+let rec text_ltb a b =
+  match a with
+  | [] -> (match b with
+           | [] -> false
+           | _ :: _ -> true)
+  | x :: a' ->
+    (match b with
+     | [] -> false
+     | y :: b' ->
+       if N.ltb x y then true else if N.ltb y x then false else text_ltb a' b')
+
+(** val key_leb : outcome -> outcome -> bool **)
+
+let key_leb a b =
+  match a.o_location with
+  | Some la ->
+    (match b.o_location with
+     | Some lb ->
+       if text_ltb la lb
+       then true
+       else if text_ltb lb la then false else N.leb a.o_line b.o_line
+     | None -> false)
+  | None -> true
+
+(** val insert_sorted : outcome -> outcome list -> outcome list **)
+
+let rec insert_sorted o l = match l with
+| [] -> o :: []
+| x :: r -> if key_leb o x then o :: l else x :: (insert_sorted o r)
+
+(** val stable_sort : outcome list -> outcome list **)
+
+let stable_sort l =
+  fold_right insert_sorted [] l
+
+(** val length_suffix : nat -> n list **)
+
+let length_suffix n0 =
+  if Nat.eqb n0 (S O)
+  then []
+  else (Npos (XO (XO (XI (XI (XO XH)))))) :: (dec (N.of_nat n0))
+
+(** val t_EXITK : n list **)
+
+let t_EXITK =
+  (Npos (XI (XO (XO (XI (XO (XI XH))))))) :: ((Npos (XO (XI (XI (XI (XO (XI
+    XH))))))) :: ((Npos (XO (XI (XI (XO (XI (XI XH))))))) :: ((Npos (XI (XO
+    (XO (XO (XO (XI XH))))))) :: ((Npos (XO (XO (XI (XI (XO (XI
+    XH))))))) :: ((Npos (XI (XO (XO (XI (XO (XI XH))))))) :: ((Npos (XO (XO
+    (XI (XO (XO (XI XH))))))) :: ((Npos (XO (XO (XO (XO (XO
+    XH)))))) :: ((Npos (XI (XO (XI (XO (XO (XI XH))))))) :: ((Npos (XO (XO
+    (XO (XI (XI (XI XH))))))) :: ((Npos (XI (XO (XO (XI (XO (XI
+    XH))))))) :: ((Npos (XO (XO (XI (XO (XI (XI XH))))))) :: ((Npos (XO (XO
+    (XO (XO (XO XH)))))) :: ((Npos (XI (XI (XO (XO (XO (XI
+    XH))))))) :: ((Npos (XI (XI (XI (XI (XO (XI XH))))))) :: ((Npos (XO (XO
+    (XI (XO (XO (XI XH))))))) :: ((Npos (XI (XO (XI (XO (XO (XI
+    XH))))))) :: []))))))))))))))))
+
+(** val t_MALK : n list **)
+
+let t_MALK =
+  (Npos (XI (XO (XI (XI (XO (XI XH))))))) :: ((Npos (XI (XO (XO (XO (XO (XI
+    XH))))))) :: ((Npos (XO (XO (XI (XI (XO (XI XH))))))) :: ((Npos (XO (XI
+    (XI (XO (XO (XI XH))))))) :: ((Npos (XI (XI (XI (XI (XO (XI
+    XH))))))) :: ((Npos (XO (XI (XO (XO (XI (XI XH))))))) :: ((Npos (XI (XO
+    (XI (XI (XO (XI XH))))))) :: ((Npos (XI (XO (XI (XO (XO (XI
+    XH))))))) :: ((Npos (XO (XO (XI (XO (XO (XI XH))))))) :: ((Npos (XO (XO
+    (XO (XO (XO XH)))))) :: ((Npos (XI (XI (XI (XI (XO (XI
+    XH))))))) :: ((Npos (XI (XO (XI (XO (XI (XI XH))))))) :: ((Npos (XO (XO
+    (XI (XO (XI (XI XH))))))) :: ((Npos (XO (XO (XO (XO (XI (XI
+    XH))))))) :: ((Npos (XI (XO (XI (XO (XI (XI XH))))))) :: ((Npos (XO (XO
+    (XI (XO (XI (XI XH))))))) :: [])))))))))))))))
+
+(** val diff_header : n -> nat -> n -> nat -> n list -> n list -> n list **)
+
+let diff_header old_start old_len new_start new_len kind title =
+  app ((Npos (XO (XO (XO (XO (XO (XO XH))))))) :: ((Npos (XO (XO (XO (XO (XO
+    (XO XH))))))) :: ((Npos (XO (XO (XO (XO (XO XH)))))) :: ((Npos (XI (XO
+    (XI (XI (XO XH)))))) :: []))))
+    (app (dec old_start)
+      (app (length_suffix old_len)
+        (app ((Npos (XO (XO (XO (XO (XO XH)))))) :: ((Npos (XI (XI (XO (XI
+          (XO XH)))))) :: []))
+          (app (dec new_start)
+            (app (length_suffix new_len)
+              (app ((Npos (XO (XO (XO (XO (XO XH)))))) :: ((Npos (XO (XO (XO
+                (XO (XO (XO XH))))))) :: ((Npos (XO (XO (XO (XO (XO (XO
+                XH))))))) :: ((Npos (XO (XO (XO (XO (XO XH)))))) :: []))))
+                (app kind
+                  (app ((Npos (XO (XI (XO (XI (XI XH)))))) :: ((Npos (XO (XO
+                    (XO (XO (XO XH)))))) :: []))
+                    (app title ((Npos (XO (XI (XO XH)))) :: []))))))))))
+
+(** val join_multiline : n list -> n list **)
+
+let join_multiline t =
+  join ((Npos (XO (XO (XO (XO (XO XH)))))) :: ((Npos (XO (XI (XO (XI (XO
+    XH)))))) :: ((Npos (XO (XO (XO (XO (XO XH)))))) :: []))) (str_lines t)
+
+(** val line_prefix : outcome -> n list **)
+
+let line_prefix o =
+  if o.o_cram
+  then (Npos (XO (XO (XO (XO (XO XH)))))) :: ((Npos (XO (XO (XO (XO (XO
+         XH)))))) :: [])
+  else []
+
+type hunk = { um_start : n option; um_lines : n list list;
+              ux_start : n option; ux_lines : n list list }
+
+(** val hunk_empty : hunk **)
+
+let hunk_empty =
+  { um_start = None; um_lines = []; ux_start = None; ux_lines = [] }
+
+(** val in_rng : n -> n -> n -> bool **)
+
+let in_rng lo hi b =
+  (&&) (N.leb lo b) (N.leb b hi)
+
+(** val second3 : n -> n -> bool **)
+
+let second3 b0 b1 =
+  if N.eqb b0 (Npos (XO (XO (XO (XO (XO (XI (XI XH))))))))
+  then in_rng (Npos (XO (XO (XO (XO (XO (XI (XO XH)))))))) (Npos (XI (XI (XI
+         (XI (XI (XI (XO XH)))))))) b1
+  else if N.eqb b0 (Npos (XI (XO (XI (XI (XO (XI (XI XH))))))))
+       then in_rng (Npos (XO (XO (XO (XO (XO (XO (XO XH)))))))) (Npos (XI (XI
+              (XI (XI (XI (XO (XO XH)))))))) b1
+       else in_rng (Npos (XO (XO (XO (XO (XO (XO (XO XH)))))))) (Npos (XI (XI
+              (XI (XI (XI (XI (XO XH)))))))) b1
+
+(** val second4 : n -> n -> bool **)
+
+let second4 b0 b1 =
+  if N.eqb b0 (Npos (XO (XO (XO (XO (XI (XI (XI XH))))))))
+  then in_rng (Npos (XO (XO (XO (XO (XI (XO (XO XH)))))))) (Npos (XI (XI (XI
+         (XI (XI (XI (XO XH)))))))) b1
+  else if N.eqb b0 (Npos (XO (XO (XI (XO (XI (XI (XI XH))))))))
+       then in_rng (Npos (XO (XO (XO (XO (XO (XO (XO XH)))))))) (Npos (XI (XI
+              (XI (XI (XO (XO (XO XH)))))))) b1
+       else in_rng (Npos (XO (XO (XO (XO (XO (XO (XO XH)))))))) (Npos (XI (XI
+              (XI (XI (XI (XI (XO XH)))))))) b1
+
+(** val rEPL : n **)
+
+let rEPL =
+  Npos (XI (XO (XI (XI (XI (XI (XI (XI (XI (XI (XI (XI (XI (XI (XI
+    XH)))))))))))))))
+
+(** val utf8_lossy : n list -> n list **)
+
+let rec utf8_lossy = function
+| [] -> []
+| b0 :: r0 ->
+  if N.ltb b0 (Npos (XO (XO (XO (XO (XO (XO (XO XH))))))))
+  then b0 :: (utf8_lossy r0)
+  else if in_rng (Npos (XO (XI (XO (XO (XO (XO (XI XH)))))))) (Npos (XI (XI
+            (XI (XI (XI (XO (XI XH)))))))) b0
+       then (match r0 with
+             | [] -> rEPL :: []
+             | b1 :: r1 ->
+               if cont b1
+               then (N.add
+                      (N.mul
+                        (N.sub b0 (Npos (XO (XO (XO (XO (XO (XO (XI
+                          XH))))))))) (Npos (XO (XO (XO (XO (XO (XO XH))))))))
+                      (N.sub b1 (Npos (XO (XO (XO (XO (XO (XO (XO XH)))))))))) :: 
+                      (utf8_lossy r1)
+               else rEPL :: (utf8_lossy r0))
+       else if in_rng (Npos (XO (XO (XO (XO (XO (XI (XI XH)))))))) (Npos (XI
+                 (XI (XI (XI (XO (XI (XI XH)))))))) b0
+            then (match r0 with
+                  | [] -> rEPL :: []
+                  | b1 :: r1 ->
+                    if second3 b0 b1
+                    then (match r1 with
+                          | [] -> rEPL :: []
+                          | b2 :: r2 ->
+                            if cont b2
+                            then (N.add
+                                   (N.add
+                                     (N.mul
+                                       (N.sub b0 (Npos (XO (XO (XO (XO (XO
+                                         (XI (XI XH))))))))) (Npos (XO (XO
+                                       (XO (XO (XO (XO (XO (XO (XO (XO (XO
+                                       (XO XH))))))))))))))
+                                     (N.mul
+                                       (N.sub b1 (Npos (XO (XO (XO (XO (XO
+                                         (XO (XO XH))))))))) (Npos (XO (XO
+                                       (XO (XO (XO (XO XH)))))))))
+                                   (N.sub b2 (Npos (XO (XO (XO (XO (XO (XO
+                                     (XO XH)))))))))) :: (utf8_lossy r2)
+                            else rEPL :: (utf8_lossy r1))
+                    else rEPL :: (utf8_lossy r0))
+            else if in_rng (Npos (XO (XO (XO (XO (XI (XI (XI XH)))))))) (Npos
+                      (XO (XO (XI (XO (XI (XI (XI XH)))))))) b0
+                 then (match r0 with
+                       | [] -> rEPL :: []
+                       | b1 :: r1 ->
+                         if second4 b0 b1
+                         then (match r1 with
+                               | [] -> rEPL :: []
+                               | b2 :: r2 ->
+                                 if cont b2
+                                 then (match r2 with
+                                       | [] -> rEPL :: []
+                                       | b3 :: r3 ->
+                                         if cont b3
+                                         then (N.add
+                                                (N.add
+                                                  (N.add
+                                                    (N.mul
+                                                      (N.sub b0 (Npos (XO (XO
+                                                        (XO (XO (XI (XI (XI
+                                                        XH))))))))) (Npos (XO
+                                                      (XO (XO (XO (XO (XO (XO
+                                                      (XO (XO (XO (XO (XO (XO
+                                                      (XO (XO (XO (XO (XO
+                                                      XH))))))))))))))))))))
+                                                    (N.mul
+                                                      (N.sub b1 (Npos (XO (XO
+                                                        (XO (XO (XO (XO (XO
+                                                        XH))))))))) (Npos (XO
+                                                      (XO (XO (XO (XO (XO (XO
+                                                      (XO (XO (XO (XO (XO
+                                                      XH)))))))))))))))
+                                                  (N.mul
+                                                    (N.sub b2 (Npos (XO (XO
+                                                      (XO (XO (XO (XO (XO
+                                                      XH))))))))) (Npos (XO
+                                                    (XO (XO (XO (XO (XO
+                                                    XH)))))))))
+                                                (N.sub b3 (Npos (XO (XO (XO
+                                                  (XO (XO (XO (XO XH)))))))))) :: 
+                                                (utf8_lossy r3)
+                                         else rEPL :: (utf8_lossy r2))
+                                 else rEPL :: (utf8_lossy r1))
+                         else rEPL :: (utf8_lossy r0))
+                 else rEPL :: (utf8_lossy r0)
+
+(** val lossy_line : n list -> n list **)
+
+let lossy_line bytes =
+  utf8_lossy (trim_newlines bytes)
+
+(** val emit_hunk : outcome -> n -> n list -> hunk -> n list **)
+
+let emit_hunk o lnum title h =
+  match h.um_start with
+  | Some _ ->
+    let us =
+      match h.um_start with
+      | Some u -> u
+      | None -> (match h.ux_start with
+                 | Some x -> x
+                 | None -> N0)
+    in
+    let xs =
+      match h.um_start with
+      | Some u -> (match h.ux_start with
+                   | Some x -> x
+                   | None -> u)
+      | None -> (match h.ux_start with
+                 | Some x -> x
+                 | None -> N0)
+    in
+    app
+      (diff_header (N.add us lnum) (length h.um_lines) (N.add xs lnum)
+        (length h.ux_lines) t_MALK title)
+      (app
+        (flat_map (fun l ->
+          app ((Npos (XI (XO (XI (XI (XO XH)))))) :: [])
+            (app (line_prefix o) (app l ((Npos (XO (XI (XO XH)))) :: []))))
+          h.um_lines)
+        (flat_map (fun l ->
+          app ((Npos (XI (XI (XO (XI (XO XH)))))) :: [])
+            (app (line_prefix o) (app l ((Npos (XO (XI (XO XH)))) :: []))))
+          h.ux_lines))
+  | None ->
+    (match h.ux_start with
+     | Some _ ->
+       let us =
+         match h.um_start with
+         | Some u -> u
+         | None -> (match h.ux_start with
+                    | Some x -> x
+                    | None -> N0)
+       in
+       let xs =
+         match h.um_start with
+         | Some u -> (match h.ux_start with
+                      | Some x -> x
+                      | None -> u)
+         | None -> (match h.ux_start with
+                    | Some x -> x
+                    | None -> N0)
+       in
+       app
+         (diff_header (N.add us lnum) (length h.um_lines) (N.add xs lnum)
+           (length h.ux_lines) t_MALK title)
+         (app
+           (flat_map (fun l ->
+             app ((Npos (XI (XO (XI (XI (XO XH)))))) :: [])
+               (app (line_prefix o) (app l ((Npos (XO (XI (XO XH)))) :: []))))
+             h.um_lines)
+           (flat_map (fun l ->
+             app ((Npos (XI (XI (XO (XI (XO XH)))))) :: [])
+               (app (line_prefix o) (app l ((Npos (XO (XI (XO XH)))) :: []))))
+             h.ux_lines))
+     | None -> [])
+
+(** val hunks_of : n -> hunk -> dline list -> hunk list **)
+
+let rec hunks_of ei h = function
+| [] -> h :: []
+| d :: r ->
+  (match d with
+   | DMatched (idx, _, _, _) -> h :: (hunks_of idx hunk_empty r)
+   | DUnmatched (idx, _, _, orig) ->
+     hunks_of idx { um_start =
+       (match h.um_start with
+        | Some n0 -> Some n0
+        | None -> Some idx); um_lines = (app h.um_lines (orig :: []));
+       ux_start = h.ux_start; ux_lines = h.ux_lines } r
+   | DUnexpected ls ->
+     let h' = { um_start = h.um_start; um_lines = h.um_lines; ux_start =
+       (match h.ux_start with
+        | Some n0 -> Some n0
+        | None -> Some ei); ux_lines =
+       (app h.ux_lines (map (fun p -> lossy_line (snd p)) ls)) }
+     in
+     (match h'.um_start with
+      | Some _ -> h' :: (hunks_of ei hunk_empty r)
+      | None -> hunks_of ei h' r))
+
+(** val unified : outcome -> n -> n list -> dline list -> n list **)
+
+let unified o lnum title ds =
+  flat_map (emit_hunk o lnum title) (hunks_of N0 hunk_empty ds)
+
+(** val t_INTERNAL : n list **)
+
+let t_INTERNAL =
+  (Npos (XI (XI (XO (XO (XO XH)))))) :: ((Npos (XO (XO (XO (XO (XO
+    XH)))))) :: ((Npos (XI (XO (XI (XI (XO XH)))))) :: ((Npos (XI (XO (XI (XI
+    (XO XH)))))) :: ((Npos (XI (XO (XI (XI (XO XH)))))) :: ((Npos (XI (XO (XI
+    (XI (XO XH)))))) :: ((Npos (XO (XO (XO (XO (XO XH)))))) :: ((Npos (XI (XO
+    (XO (XI (XO (XO XH))))))) :: ((Npos (XO (XI (XI (XI (XO (XO
+    XH))))))) :: ((Npos (XO (XO (XI (XO (XI (XO XH))))))) :: ((Npos (XI (XO
+    (XI (XO (XO (XO XH))))))) :: ((Npos (XO (XI (XO (XO (XI (XO
+    XH))))))) :: ((Npos (XO (XI (XI (XI (XO (XO XH))))))) :: ((Npos (XI (XO
+    (XO (XO (XO (XO XH))))))) :: ((Npos (XO (XO (XI (XI (XO (XO
+    XH))))))) :: ((Npos (XO (XO (XO (XO (XO XH)))))) :: ((Npos (XI (XO (XI
+    (XO (XO (XO XH))))))) :: ((Npos (XO (XI (XO (XO (XI (XO
+    XH))))))) :: ((Npos (XO (XI (XO (XO (XI (XO XH))))))) :: ((Npos (XI (XI
+    (XI (XI (XO (XO XH))))))) :: ((Npos (XO (XI (XO (XO (XI (XO
+    XH))))))) :: ((Npos (XO (XO (XO (XO (XO XH)))))) :: ((Npos (XI (XO (XI
+    (XI (XO XH)))))) :: ((Npos (XI (XO (XI (XI (XO XH)))))) :: ((Npos (XI (XO
+    (XI (XI (XO XH)))))) :: ((Npos (XI (XO (XI (XI (XO XH)))))) :: ((Npos (XO
+    (XI (XO XH)))) :: []))))))))))))))))))))))))))
+
+(** val t_PATH : n list **)
+
+let t_PATH =
+  (Npos (XI (XI (XO (XO (XO XH)))))) :: ((Npos (XO (XO (XO (XO (XO
+    XH)))))) :: ((Npos (XO (XO (XO (XO (XI (XO XH))))))) :: ((Npos (XI (XO
+    (XO (XO (XO (XO XH))))))) :: ((Npos (XO (XO (XI (XO (XI (XO
+    XH))))))) :: ((Npos (XO (XO (XO (XI (XO (XO XH))))))) :: ((Npos (XO (XI
+    (XO (XI (XI XH)))))) :: ((Npos (XO (XO (XO (XO (XO XH)))))) :: ((Npos (XO
+    (XO (XO (XO (XO XH)))))) :: []))))))))
+
+(** val t_TITLE : n list **)
+
+let t_TITLE =
+  (Npos (XI (XI (XO (XO (XO XH)))))) :: ((Npos (XO (XO (XO (XO (XO
+    XH)))))) :: ((Npos (XO (XO (XI (XO (XI (XO XH))))))) :: ((Npos (XI (XO
+    (XO (XI (XO (XO XH))))))) :: ((Npos (XO (XO (XI (XO (XI (XO
+    XH))))))) :: ((Npos (XO (XO (XI (XI (XO (XO XH))))))) :: ((Npos (XI (XO
+    (XI (XO (XO (XO XH))))))) :: ((Npos (XO (XI (XO (XI (XI
+    XH)))))) :: ((Npos (XO (XO (XO (XO (XO XH)))))) :: []))))))))
+
+(** val t_ERRORL : n list **)
+
+let t_ERRORL =
+  (Npos (XI (XI (XO (XO (XO XH)))))) :: ((Npos (XO (XO (XO (XO (XO
+    XH)))))) :: ((Npos (XI (XO (XI (XO (XO (XO XH))))))) :: ((Npos (XO (XI
+    (XO (XO (XI (XO XH))))))) :: ((Npos (XO (XI (XO (XO (XI (XO
+    XH))))))) :: ((Npos (XI (XI (XI (XI (XO (XO XH))))))) :: ((Npos (XO (XI
+    (XO (XO (XI (XO XH))))))) :: ((Npos (XO (XI (XO (XI (XI
+    XH)))))) :: ((Npos (XO (XO (XO (XO (XO XH)))))) :: []))))))))
+
+(** val diff_error : outcome -> n list **)
+
+let diff_error o =
+  match o.o_res with
+  | OMalformed (_, d) ->
+    unified o (N.add o.o_line (shell_expression_lines o))
+      (join_multiline o.o_title) d
+  | OExit (actual, _) ->
+    let ln = N.add (N.add o.o_line (shell_expression_lines o)) o.o_nexps in
+    app
+      (diff_header ln (match o.o_exit with
+                       | Some _ -> S O
+                       | None -> O) ln (S O) t_EXITK
+        (join_multiline o.o_title))
+      (app
+        (match o.o_exit with
+         | Some c ->
+           app ((Npos (XI (XO (XI (XI (XO XH)))))) :: [])
+             (app (line_prefix o)
+               (app ((Npos (XI (XI (XO (XI (XI (XO XH))))))) :: [])
+                 (app (decz c) ((Npos (XI (XO (XI (XI (XI (XO
+                   XH))))))) :: ((Npos (XO (XI (XO XH)))) :: [])))))
+         | None -> [])
+        (app ((Npos (XI (XI (XO (XI (XO XH)))))) :: [])
+          (app (line_prefix o)
+            (app ((Npos (XI (XI (XO (XI (XI (XO XH))))))) :: [])
+              (app (decz actual) ((Npos (XI (XO (XI (XI (XI (XO
+                XH))))))) :: ((Npos (XO (XI (XO XH)))) :: [])))))))
+  | OInternal msg ->
+    app t_INTERNAL
+      (app
+        (match o.o_location with
+         | Some l -> app t_PATH (app l ((Npos (XO (XI (XO XH)))) :: []))
+         | None -> [])
+        (app t_TITLE
+          (app (join_multiline o.o_title)
+            (app ((Npos (XO (XI (XO XH)))) :: [])
+              (app
+                (flat_map (fun l ->
+                  app t_ERRORL (app l ((Npos (XO (XI (XO XH)))) :: [])))
+                  (str_lines msg)) t_INTERNAL)))))
+  | _ -> []
+
+(** val opt_text_eqb : n list option -> n list option -> bool **)
+
+let opt_text_eqb a b =
+  match a with
+  | Some x -> (match b with
+               | Some y -> text_eqb x y
+               | None -> false)
+  | None -> (match b with
+             | Some _ -> false
+             | None -> true)
+
+(** val t_NEW : n list **)
+
+let t_NEW =
+  (Npos (XO (XI (XI (XI (XO XH)))))) :: ((Npos (XO (XI (XI (XI (XO (XI
+    XH))))))) :: ((Npos (XI (XO (XI (XO (XO (XI XH))))))) :: ((Npos (XI (XI
+    (XI (XO (XI (XI XH))))))) :: [])))
+
+(** val diff_body : n list option -> outcome list -> n list **)
+
+let rec diff_body last = function
+| [] -> []
+| o :: r ->
+  if res_success o.o_res
+  then diff_body last r
+  else let changed = negb (opt_text_eqb o.o_location last) in
+       let hdr =
+         if changed
+         then (match o.o_location with
+               | Some l ->
+                 app
+                   (match last with
+                    | Some _ -> (Npos (XO (XI (XO XH)))) :: []
+                    | None -> [])
+                   (app ((Npos (XI (XO (XI (XI (XO XH)))))) :: ((Npos (XI (XO
+                     (XI (XI (XO XH)))))) :: ((Npos (XI (XO (XI (XI (XO
+                     XH)))))) :: ((Npos (XO (XO (XO (XO (XO
+                     XH)))))) :: []))))
+                     (app l
+                       (app ((Npos (XO (XI (XO XH)))) :: [])
+                         (app ((Npos (XI (XI (XO (XI (XO XH)))))) :: ((Npos
+                           (XI (XI (XO (XI (XO XH)))))) :: ((Npos (XI (XI (XO
+                           (XI (XO XH)))))) :: ((Npos (XO (XO (XO (XO (XO
+                           XH)))))) :: []))))
+                           (app l
+                             (app t_NEW ((Npos (XO (XI (XO XH)))) :: [])))))))
+               | None -> [])
+         else []
+       in
+       let last' =
+         if changed
+         then (match o.o_location with
+               | Some l -> Some l
+               | None -> last)
+         else last
+       in
+       app hdr (app (diff_error o) (diff_body last' r))
+
+(** val render_diff : outcome list -> rr **)
+
+let render_diff os =
+  let n0 = length (locations os) in
+  if (&&) (Nat.ltb O n0) (negb (Nat.eqb n0 (length os)))
+  then RendErr
+  else RendOk (diff_body None (if Nat.ltb O n0 then stable_sort os else os))
+
+(** val k_SUCCESS : n list **)
+
+let k_SUCCESS =
+  (Npos (XI (XI (XO (XO (XI (XI XH))))))) :: ((Npos (XI (XO (XI (XO (XI (XI
+    XH))))))) :: ((Npos (XI (XI (XO (XO (XO (XI XH))))))) :: ((Npos (XI (XI
+    (XO (XO (XO (XI XH))))))) :: ((Npos (XI (XO (XI (XO (XO (XI
+    XH))))))) :: ((Npos (XI (XI (XO (XO (XI (XI XH))))))) :: ((Npos (XI (XI
+    (XO (XO (XI (XI XH))))))) :: []))))))
+
+(** val k_MALFORMED : n list **)
+
+let k_MALFORMED =
+  (Npos (XI (XO (XI (XI (XO (XI XH))))))) :: ((Npos (XI (XO (XO (XO (XO (XI
+    XH))))))) :: ((Npos (XO (XO (XI (XI (XO (XI XH))))))) :: ((Npos (XO (XI
+    (XI (XO (XO (XI XH))))))) :: ((Npos (XI (XI (XI (XI (XO (XI
+    XH))))))) :: ((Npos (XO (XI (XO (XO (XI (XI XH))))))) :: ((Npos (XI (XO
+    (XI (XI (XO (XI XH))))))) :: ((Npos (XI (XO (XI (XO (XO (XI
+    XH))))))) :: ((Npos (XO (XO (XI (XO (XO (XI XH))))))) :: ((Npos (XI (XI
+    (XI (XI (XI (XO XH))))))) :: ((Npos (XI (XI (XI (XI (XO (XI
+    XH))))))) :: ((Npos (XI (XO (XI (XO (XI (XI XH))))))) :: ((Npos (XO (XO
+    (XI (XO (XI (XI XH))))))) :: ((Npos (XO (XO (XO (XO (XI (XI
+    XH))))))) :: ((Npos (XI (XO (XI (XO (XI (XI XH))))))) :: ((Npos (XO (XO
+    (XI (XO (XI (XI XH))))))) :: [])))))))))))))))
+
+(** val k_EXIT : n list **)
+
+let k_EXIT =
+  (Npos (XI (XO (XO (XI (XO (XI XH))))))) :: ((Npos (XO (XI (XI (XI (XO (XI
+    XH))))))) :: ((Npos (XO (XI (XI (XO (XI (XI XH))))))) :: ((Npos (XI (XO
+    (XO (XO (XO (XI XH))))))) :: ((Npos (XO (XO (XI (XI (XO (XI
+    XH))))))) :: ((Npos (XI (XO (XO (XI (XO (XI XH))))))) :: ((Npos (XO (XO
+    (XI (XO (XO (XI XH))))))) :: ((Npos (XI (XI (XI (XI (XI (XO
+    XH))))))) :: ((Npos (XI (XO (XI (XO (XO (XI XH))))))) :: ((Npos (XO (XO
+    (XO (XI (XI (XI XH))))))) :: ((Npos (XI (XO (XO (XI (XO (XI
+    XH))))))) :: ((Npos (XO (XO (XI (XO (XI (XI XH))))))) :: ((Npos (XI (XI
+    (XI (XI (XI (XO XH))))))) :: ((Npos (XI (XI (XO (XO (XO (XI
+    XH))))))) :: ((Npos (XI (XI (XI (XI (XO (XI XH))))))) :: ((Npos (XO (XO
+    (XI (XO (XO (XI XH))))))) :: ((Npos (XI (XO (XI (XO (XO (XI
+    XH))))))) :: []))))))))))))))))
+
+(** val k_INTERNAL : n list **)
+
+let k_INTERNAL =
+  (Npos (XI (XO (XO (XI (XO (XI XH))))))) :: ((Npos (XO (XI (XI (XI (XO (XI
+    XH))))))) :: ((Npos (XO (XO (XI (XO (XI (XI XH))))))) :: ((Npos (XI (XO
+    (XI (XO (XO (XI XH))))))) :: ((Npos (XO (XI (XO (XO (XI (XI
+    XH))))))) :: ((Npos (XO (XI (XI (XI (XO (XI XH))))))) :: ((Npos (XI (XO
+    (XO (XO (XO (XI XH))))))) :: ((Npos (XO (XO (XI (XI (XO (XI
+    XH))))))) :: ((Npos (XI (XI (XI (XI (XI (XO XH))))))) :: ((Npos (XI (XO
+    (XI (XO (XO (XI XH))))))) :: ((Npos (XO (XI (XO (XO (XI (XI
+    XH))))))) :: ((Npos (XO (XI (XO (XO (XI (XI XH))))))) :: ((Npos (XI (XI
+    (XI (XI (XO (XI XH))))))) :: ((Npos (XO (XI (XO (XO (XI (XI
+    XH))))))) :: [])))))))))))))
+
+(** val k_TIMEOUT : n list **)
+
+let k_TIMEOUT =
+  (Npos (XO (XO (XI (XO (XI (XI XH))))))) :: ((Npos (XI (XO (XO (XI (XO (XI
+    XH))))))) :: ((Npos (XI (XO (XI (XI (XO (XI XH))))))) :: ((Npos (XI (XO
+    (XI (XO (XO (XI XH))))))) :: ((Npos (XI (XI (XI (XI (XO (XI
+    XH))))))) :: ((Npos (XI (XO (XI (XO (XI (XI XH))))))) :: ((Npos (XO (XO
+    (XI (XO (XI (XI XH))))))) :: []))))))
+
+(** val k_SKIPPED : n list **)
+
+let k_SKIPPED =
+  (Npos (XI (XI (XO (XO (XI (XI XH))))))) :: ((Npos (XI (XI (XO (XI (XO (XI
+    XH))))))) :: ((Npos (XI (XO (XO (XI (XO (XI XH))))))) :: ((Npos (XO (XO
+    (XO (XO (XI (XI XH))))))) :: ((Npos (XO (XO (XO (XO (XI (XI
+    XH))))))) :: ((Npos (XI (XO (XI (XO (XO (XI XH))))))) :: ((Npos (XO (XO
+    (XI (XO (XO (XI XH))))))) :: []))))))
+
+(** val kind_of : result -> n list **)
+
+let kind_of = function
+| OSuccess -> k_SUCCESS
+| OMalformed (_, _) -> k_MALFORMED
+| OExit (_, _) -> k_EXIT
+| OInternal _ -> k_INTERNAL
+| OTimeout -> k_TIMEOUT
+| OSkipped -> k_SKIPPED
+
+(** val dkind : dline -> n **)
+
+let dkind = function
+| DMatched (_, _, _, _) -> N0
+| DUnmatched (_, _, _, _) -> Npos XH
+| DUnexpected _ -> Npos (XO XH)
+
+type sentry = { se_location : n list option; se_kind : n list;
+                se_diff : n list }
+
+(** val structured : outcome list -> sentry list **)
+
+let structured os =
+  map (fun o -> { se_location = o.o_location; se_kind = (kind_of o.o_res);
+    se_diff =
+    (match o.o_res with
+     | OMalformed (_, d) -> map dkind d
+     | _ -> []) }) os
+
+(** val dline_ok : n -> n -> dline -> bool **)
+
+let dline_ok nexps count_lines = function
+| DMatched (idx, mul1, _, first) ->
+  (&&) (N.ltb idx nexps)
+    (match first with
+     | Some f -> N.ltb f count_lines
+     | None -> mul1)
+| DUnmatched (idx, _, _, _) -> N.ltb idx nexps
+| DUnexpected ls -> forallb (fun p -> N.ltb (fst p) count_lines) ls
+
+(** val result_ok : outcome -> bool **)
+
+let result_ok o =
+  match o.o_res with
+  | OMalformed (n0, d) -> forallb (dline_ok o.o_nexps n0) d
+  | _ -> true
 
 (** val make_exp : bool -> bool -> (nat -> bool) -> nat exp **)
 
